@@ -278,6 +278,25 @@ func runReplay(h *hctx, path string) {
 			h.res.Fatalf("replay: %v", err)
 			return
 		}
+		if sc.Once {
+			scs := make([]*procScenario, 12)
+			for i := range scs {
+				scs[i] = &sc
+			}
+			if !h.pcfg.ProcWired {
+				h.res.Fatalf("replay: the real Processor cannot be driven")
+				return
+			}
+			evalOnce(h, scs)
+			return
+		}
+		if sc.Plain && h.pcfg.Overlay {
+			wired := childBin
+			childBin = os.Args[0]
+			procCase(h, &sc)
+			childBin = wired
+			return
+		}
 		procCase(h, &sc)
 	case "marshal":
 		sh, _ := parseHexList(str(rp["shards"]))
